@@ -173,6 +173,13 @@ async fn run(cfg: &Value, rounds: &[Vec<String>], sels: &[Vec<(String, usize)>],
             see(&c);
             HealthCheckWrapper::builder().with_config(c).with_checker(checker)
         }
+        3 => {
+            // thresholds not set at all: the documented defaults (failure_threshold 2, success_threshold 1) apply
+            let c = HealthCheckConfig::builder().interval(Duration::from_millis(INTERVAL)).initial_delay(Duration::ZERO).timeout(tmo)
+                .selection_strategy(strat).build();
+            see(&c);
+            HealthCheckWrapper::builder().with_checker(checker).with_config(c)
+        }
         _ => HealthCheckWrapper::builder()
             .with_checker(checker)
             .with_interval(Duration::from_millis(INTERVAL))
@@ -270,8 +277,11 @@ pub fn run_health(seed: u64, size: Size, out: &mut Vec<String>) -> (usize, usize
         let mut rng = Rng::new(seed.wrapping_mul(7907).wrapping_add(i as u64));
         let n = 1 + rng.below(if size == Size::Quick { 3 } else { 5 });
         let long_tmo = rng.pct(30);
-        let cfg = json!({"n": n, "ft": 1 + rng.below(3), "sth": 1 + rng.below(3), "strat": *rng.pick(&["first", "rr", "rr", "prefer"]),
-                         "tmo": if long_tmo { 12 } else { TIMEOUT }, "ctor": rng.below(3), "trig": if rng.pct(50) { 1 } else { 0 }});
+        let ctor = rng.below(4);
+        // ctor 3 leaves the thresholds at their defaults
+        let (ft, sth) = if ctor == 3 { (2, 1) } else { (1 + rng.below(3), 1 + rng.below(3)) };
+        let cfg = json!({"n": n, "ft": ft, "sth": sth, "strat": *rng.pick(&["first", "rr", "rr", "prefer"]),
+                         "tmo": if long_tmo { 12 } else { TIMEOUT }, "ctor": ctor, "trig": if ctor == 3 { 0 } else if rng.pct(50) { 1 } else { 0 }});
         // biased result alphabets so that runs of successes and failures of every length occur
         let bias = rng.below(3);
         let mut rounds = vec![];
